@@ -184,30 +184,97 @@ func (g *G) fillSerialisableNode(n *sbom.Node) {
 	if g.R.Intn(2) == 0 {
 		n.Copyright = g.str("copyright")
 	}
-	if g.R.Intn(2) == 0 {
-		n.Licenses = append(n.Licenses, []string{"MIT", "Apache-2.0", "BSD-3-Clause"}[g.R.Intn(3)])
+	for k := g.R.Intn(3); k > 0; k-- {
+		n.Licenses = append(n.Licenses, []string{"MIT", "Apache-2.0", "BSD-3-Clause", "GPL-2.0-only"}[g.R.Intn(4)])
 	}
 	if g.R.Intn(3) == 0 {
 		n.LicenseConcluded = "MIT"
 	}
+	if g.R.Intn(3) == 0 {
+		n.LicenseComments = g.str("lcomment")
+	}
 	if g.R.Intn(2) == 0 {
 		n.Hashes = map[int32]string{}
-		for i := 0; i <= g.R.Intn(2); i++ {
+		for i := 0; i <= g.R.Intn(3); i++ {
 			a := hashAlgos[g.R.Intn(len(hashAlgos))]
 			n.Hashes[int32(a)] = fmt.Sprintf("%040x", g.R.Int63())
 		}
 	}
 	if n.Type == sbom.Node_PACKAGE && g.R.Intn(2) == 0 {
-		n.Identifiers = map[int32]string{int32(sbom.SoftwareIdentifierType_PURL): fmt.Sprintf("pkg:generic/%s@1.0.%d", safeWords[g.R.Intn(len(safeWords))], g.ctr)}
+		// several identifier kinds at once (both CPE flavours included)
+		n.Identifiers = map[int32]string{}
+		if g.R.Intn(3) != 0 {
+			n.Identifiers[int32(sbom.SoftwareIdentifierType_PURL)] = fmt.Sprintf("pkg:generic/%s@1.0.%d", safeWords[g.R.Intn(len(safeWords))], g.ctr)
+		}
+		if g.R.Intn(2) == 0 {
+			n.Identifiers[int32(sbom.SoftwareIdentifierType_CPE22)] = fmt.Sprintf("cpe:/a:vendor:%s:1.%d", safeWords[g.R.Intn(len(safeWords))], g.ctr)
+		}
+		if g.R.Intn(2) == 0 {
+			n.Identifiers[int32(sbom.SoftwareIdentifierType_CPE23)] = fmt.Sprintf("cpe:2.3:a:vendor:%s:2.%d:*:*:*:*:*:*:*", safeWords[g.R.Intn(len(safeWords))], g.ctr)
+		}
+		if g.R.Intn(4) == 0 {
+			n.Identifiers[int32(sbom.SoftwareIdentifierType_GITOID)] = fmt.Sprintf("gitoid:blob:sha1:%040x", g.R.Int63())
+		}
+	}
+	for k := g.R.Intn(3); k > 0; k-- {
+		p := &sbom.Person{Name: g.str("supplier"), IsOrg: g.R.Intn(2) == 0}
+		if g.R.Intn(2) == 0 {
+			p.Email = "x" + fmt.Sprint(g.ctr) + "@example.com"
+		}
+		n.Suppliers = append(n.Suppliers, p)
+	}
+	for k := g.R.Intn(3); k > 0; k-- {
+		n.Originators = append(n.Originators, &sbom.Person{Name: g.str("originator"), IsOrg: g.R.Intn(2) == 0})
+	}
+	for k := g.R.Intn(3); k > 0; k-- {
+		er := &sbom.ExternalReference{Url: "https://example.com/" + g.str("u"),
+			Type: []sbom.ExternalReference_ExternalReferenceType{sbom.ExternalReference_WEBSITE, sbom.ExternalReference_VCS, sbom.ExternalReference_ISSUE_TRACKER}[g.R.Intn(3)]}
+		if g.R.Intn(2) == 0 {
+			er.Comment = g.str("ercomment")
+		}
+		if g.R.Intn(3) == 0 {
+			er.Hashes = map[int32]string{int32(sbom.HashAlgorithm_SHA256): fmt.Sprintf("%064x", g.R.Int63())}
+		}
+		n.ExternalReferences = append(n.ExternalReferences, er)
+	}
+	for k := g.R.Intn(3); k > 0; k-- {
+		n.PrimaryPurpose = append(n.PrimaryPurpose, []sbom.Purpose{sbom.Purpose_LIBRARY, sbom.Purpose_APPLICATION, sbom.Purpose_CONTAINER, sbom.Purpose_FRAMEWORK}[g.R.Intn(4)])
+	}
+	for k := g.R.Intn(3); k > 0; k-- {
+		// attribution texts, some with surrounding white space
+		n.Attribution = append(n.Attribution, []string{"", " ", "\t"}[g.R.Intn(3)]+g.str("attribution")+[]string{"", "  ", "\n"}[g.R.Intn(3)])
 	}
 	if g.R.Intn(3) == 0 {
-		n.Suppliers = append(n.Suppliers, &sbom.Person{Name: g.str("supplier"), IsOrg: true})
+		n.ReleaseDate = timestamppb.New(timeAt(g.R)) // sub-second part included
+	}
+	if g.R.Intn(4) == 0 {
+		n.BuildDate = timestamppb.New(timeAt(g.R))
+	}
+	if g.R.Intn(4) == 0 {
+		n.ValidUntilDate = timestamppb.New(timeAt(g.R))
 	}
 	if g.R.Intn(3) == 0 {
-		n.ExternalReferences = append(n.ExternalReferences, &sbom.ExternalReference{Url: "https://example.com/" + g.str("u"), Type: sbom.ExternalReference_WEBSITE})
+		n.UrlHome = "https://example.com/" + g.str("home")
 	}
 	if g.R.Intn(3) == 0 {
-		n.PrimaryPurpose = append(n.PrimaryPurpose, sbom.Purpose_LIBRARY)
+		n.UrlDownload = "https://example.com/" + g.str("dl")
+	}
+	if g.R.Intn(3) == 0 {
+		n.SourceInfo = g.str("source")
+	}
+	if g.R.Intn(3) == 0 {
+		n.Comment = g.str("comment")
+	}
+	if g.R.Intn(3) == 0 {
+		n.Summary = g.str("summary")
+	}
+	if n.Type == sbom.Node_FILE {
+		if g.R.Intn(2) == 0 {
+			n.FileName = g.str("file")
+		}
+		for k := g.R.Intn(3); k > 0; k-- {
+			n.FileTypes = append(n.FileTypes, []string{"SOURCE", "BINARY", "TEXT"}[g.R.Intn(3)])
+		}
 	}
 }
 
